@@ -246,7 +246,7 @@ class Call2Mixin:
       if _internal(e, c):
         continue
       self.path.ctx = f'assumed postcondition of {c.short}: {e}'
-      self.assume(self.spec(e, env2, old))
+      self.assume(self.spec(e[5:].strip() if e.startswith('impl:') else e, env2, old))
     self.call_log.append((c.short, res))
     self.call_args_log.append((c.short, dict(env)))
     if 'return' in c.cond_tests and not self.spec_mode:
